@@ -255,7 +255,7 @@ class Report:
         for r in rows:
             if r['status'] == 'unsat':
                 continue
-            model = r.get('model') or r.get('bounded_model')
+            model = r.get('model') if r.get('model') is not None else r.get('bounded_model')
             in_base = base_names is not None and r['base'] in base_names
             wit, repro, msg = None, False, ''
             if model is not None and hasattr(mod, 'model_witness') and r.get('unit'):
@@ -268,7 +268,8 @@ class Report:
             if repro:
                 viols.append({'clause': wit.get('clause', r['base']), 'what': msg, 'witness': wit, 'reproduced': True, 'source': 'PROVE counter-model',
                               'obligation': r['uid'], 'solver': r.get('tries')})
-            elif in_base:
+            elif in_base or (r['kind'] in ('frame', 'exc') and r['status'] == 'sat' and base_names is not None):
+                # (a frame / undocumented-exception obligation exists only when the write / raise is reachable: a counter-model is definite)
                 # an obligation the committed baseline discharges is refused on this run: a counter-model, or no back end
                 # (z3 5.1, cvc5, z3 4.8) discharges it within the budget.  Reported as a violation without a failing input.
                 how = 'refused with a counter-model' if r['status'] == 'sat' else 'no longer discharged by any back end within %ds each (%s)' % (TLIMIT[self.tier], r.get('tries'))
